@@ -4,7 +4,7 @@
 //!          kind: 0 windows(Character) 1 windows(Bytes) 2 windows(Full) 3 char() 4 byte()
 //!          max/ctx: integer, or (hi lo) = hi * 2^32 + lo for values >= 2^62
 //!          clusters: the real CharString segmentation of the text; probes: ((a b) ...)
-//! output = (windows cs probes pcs)   -- see C16_Model.v
+//! output = (windows cs probes pcs pbs)   -- see C16_Model.v; pbs (possible_byte_substrings) see C16_MachinePbs.v
 use text_utils::text::{possible_byte_substrings, possible_character_substrings};
 use text_utils::unicode::CharString;
 use text_utils::windows::{byte, char, windows, Window, WindowConfig};
@@ -746,8 +746,28 @@ impl Prop for C16 {
             ])
         });
 
+        // 4. possible_byte_substrings, compared with its reference model and its machine model (`pbs_agree`); `()` = not
+        // run: the models walk the list of byte lengths from the front for every slice (quadratic), the code is
+        // quadratic in the text when max is large
+        let nclusters = vh::split_clusters(&s, g).count();
+        let pbs = if nclusters <= 300 || (max < 64 && nclusters <= 1100) {
+            let s8 = s.clone();
+            guard(move || {
+                let r = possible_byte_substrings(&s8, max, g);
+                Val::L(vec![
+                    Val::I(0),
+                    Val::list(r, |(a, b, c)| Val::L(vec![Val::u(a), Val::u(b), Val::u(c)])),
+                ])
+            })
+        } else {
+            Val::L(vec![])
+        };
+
         let mut tags = vec![];
         tags.push(if g { "g".to_string() } else { "cp".to_string() });
+        if pbs != Val::L(vec![]) {
+            tags.push("pbs-run".into());
+        }
         // cluster byte lengths straight from the segmentation (not through the RLE)
         let lens: Vec<usize> = vh::split_clusters(&s, g).map(str::len).collect();
         // informational: possible_byte_substrings shares the offset arithmetic (no model, no clause)
@@ -818,11 +838,11 @@ impl Prop for C16 {
         if max >= 1 << 62 || ctx >= 1 << 62 {
             tags.push("huge".into());
         }
-        if EXT.contains(&max) && EXT.contains(&ctx) {
-            tags.push("ext-pair".into());
-        }
         if max >= (1 << 31) - 1 || ctx >= (1 << 31) - 1 {
             tags.push("ext".into());
+            if EXT.contains(&max) && EXT.contains(&ctx) {
+                tags.push("ext-pair".into());
+            }
             // the product 2 * ctx does not fit into a usize: where the pinned code overflowed
             if ctx > usize::MAX / 2 {
                 tags.push("ext-2ctx-overflows".into());
@@ -848,7 +868,7 @@ impl Prop for C16 {
             (Some(-778), _) => tags.push("hang".into()),
             _ => tags.push("other".into()),
         }
-        Some((Val::L(vec![wres, csv, Val::L(pv), pcs]), tags))
+        Some((Val::L(vec![wres, csv, Val::L(pv), pcs, pbs]), tags))
     }
 
     fn canon(&mut self, inp: &Val) -> Option<Val> {
